@@ -99,7 +99,12 @@ def gen_cases(rng, tier, info):
     for j in range(n):
         ptype = j % 3
         cp, page, tables, summary, streams, opts = gen_db(rng, j)
-        clsid, entries, expected = msienc.encode_db(rng, ptype, cp, tables, summary, streams, **opts)
+        # every fourth file describes, in _Validation, tables and columns that it does not contain (as real-world packages do)
+        orph = []
+        if j % 4 == 2 and opts["validation"]:
+            orph = [("Ghost", mk("Id", "i16", pk=True)), ("Ghost", mk("Name", ("str", 32), null=True, cat="Text")),
+                    (sorted(tables)[0], mk("NoSuchColumn", "i32", null=True)), ("Zeta", mk("K", "i16", pk=True))]
+        clsid, entries, expected = msienc.encode_db(rng, ptype, cp, tables, summary, streams, orphan_validation=orph, **opts)
         for k, v in opts.items():
             if v:
                 feats[k] = feats.get(k, 0) + 1
